@@ -427,7 +427,7 @@ def gen_discount_decides(rng):
     m = (1+gamma)/2 (resp. its inverse): any change of the effective discount by more than (1-gamma)/2 relative -- in the
     evaluation OR in the improvement step -- flips the decision.  gamma in {0, 1/4, 1/2, 4/5, 9/10, 19/20}; some random
     extra states feed into the choice state."""
-    gam = F(rng.choice(["0", "1/4", "1/2", "1/2", "4/5", "4/5", "9/10", "19/20"]))
+    gam = F(rng.choice(["0", "0", "1/4", "1/2", "1/2", "4/5", "4/5", "9/10", "19/20"]))
     k = rng.randint(1, 3)
     B = F(rng.randint(2, 12)) * rng.choice([1, 1, -1])
     m = (1 + gam) / 2 if gam > 0 else F(1, 2)
@@ -562,8 +562,8 @@ def gen_tiny(rng):
     h = F(1, 2)
     shape = rng.choice(["leak-selfloop", "two-selfloops", "asym", "exit-terminal", "tiny-exit", "cycle-leak",
                         "pair-leak", "cycle-leak-terminal", "chain-selfloops", "choice", "cycle-leak", "pair-leak",
-                        "tiny-init", "tiny-init", "tiny-init", "tiny-init", "big-reward", "big-reward",
-                        "zero-reward-leak", "zero-reward-leak", "zero-reward-leak", "zero-reward-leak"])
+                        "tiny-init", "tiny-init", "tiny-init", "tiny-init", "big-reward", "big-reward"]
+                       + ["zero-reward-leak"] * 9)
     term = set()
     if shape == "tiny-init":
         # a closed class that is reachable ONLY through an initial-distribution entry of probability 2^-k
@@ -646,39 +646,39 @@ def gen_case(rng, tier):
     nmax = 6 if tier == "quick" else 8
     r = rng.random()
     more = None
-    if r < .17:
+    if r < .15:
         kind = "discounted"
         m = gen_mdp.gen_mdp(rng, nmax=nmax, amax=3, gamma=rng.choice(DISC_GAMMAS))
-    elif r < .23:
+    elif r < .21:
         kind = "discounted-components"        # many disconnected components / paying self-loops, 5-8 states
         m = gen_components(rng)
-    elif r < .29:
+    elif r < .26:
         # continuing problems (no terminal states) with a discount rate very close to 1: |V*| ~ 1/(1-gamma)
         kind = "discounted-near-one"
         m = gen_mdp.gen_mdp(rng, nmax=4, amax=2, min_states=2, goal=False, implicit_absorbing=False,
                             gamma=rng.choice(NEAR_ONE))
-    elif r < .35:
+    elif r < .31:
         kind = "discounted-episodic-near-one"  # long stochastic corridors, gamma within ~1e-5 of 1
         m = gen_episodic_near_one(rng, tier)
-    elif r < .40:
+    elif r < .36:
         kind = "undisc-proper-nonpos"        # every policy reaches a terminal state
         m = gen_mdp.gen_mdp(rng, nmax=nmax, amax=3, gamma="1", proper=True)
-    elif r < .46:
+    elif r < .42:
         kind = "undisc-terminal-either-sign"  # terminal states exist but need not be reached
         m = _either_sign(rng, nmax=nmax, amax=3, min_states=2)
-    elif r < .52:
+    elif r < .48:
         kind = "undisc-recurrent"             # no explicit terminal states: unichain or multichain by chance
         m = _either_sign(rng, nmax=nmax, amax=3, min_states=2, goal=False)
-    elif r < .58:
+    elif r < .54:
         kind = "undisc-blocks"                # multichain by construction
         m = gen_blocks(rng, nmax)
-    elif r < .65:
+    elif r < .61:
         kind = "undisc-farms"                 # gain-class choice with exact / near bias ties
         m = gen_farms(rng)
-    elif r < .71:
+    elif r < .67:
         kind = "undisc-large-costs"           # costs ~ -1000 .. -100, state-dependent action sets, no terminal state
         m = gen_large_costs(rng)
-    elif r < .78:
+    elif r < .76:
         kind = "tiny-probabilities"           # probabilities 2^-k / 1-2^-k, k in {8,10,20,27,30,40,52}
         m = gen_tiny(rng)
     elif r < .83:
